@@ -78,13 +78,22 @@ func (h *probeHandler) Provision(caddy.Context) error {
 }
 func (h *probeHandler) Cleanup() error { return cb('C', h.Gen, fmt.Sprintf("h%d", h.Srv)) }
 
-func (h *probeHandler) ServeHTTP(w http.ResponseWriter, req *http.Request, _ caddyhttp.Handler) error {
+func (h *probeHandler) ServeHTTP(w http.ResponseWriter, req *http.Request, next caddyhttp.Handler) error {
 	if tok, ok := strings.CutPrefix(req.URL.Path, "/block/"); ok {
-		if r := cur.Load(); r != nil {
-			r.blockHere(tok, h.Gen)
+		ctxState := "ok"
+		if r := cur.Load(); r != nil && r.blockHere(tok, h.Gen, req.Context()) {
+			ctxState = "cancelled" // the request's own context ended while it was parked and the client connected
 		}
-		fmt.Fprintf(w, "gen=%d tok=%s\n", h.Gen, tok)
+		fmt.Fprintf(w, "gen=%d tok=%s ctx=%s\n", h.Gen, tok, ctxState)
 		return nil
+	}
+	if tok, ok := strings.CutPrefix(req.URL.Path, "/proxy/"); ok {
+		// in flight through the real reverse_proxy (the next handler) to a backend the harness holds
+		if r := cur.Load(); r != nil {
+			r.noteAccepted(tok, h.Gen)
+		}
+		req.Header.Set("X-Verif-Gen", fmt.Sprint(h.Gen))
+		return next.ServeHTTP(w, req)
 	}
 	sd := 0
 	if repl, ok := req.Context().Value(caddy.ReplacerCtxKey).(*caddy.Replacer); ok {
